@@ -3,6 +3,7 @@ import cpc_rules as P
 import chains
 import cowrite
 import generic_lints
+import predicates
 import twins
 import triggers
 
@@ -19,6 +20,7 @@ def run(facts, tier):
         ("pair codec", P.pair_codec, 1, "(row << 6) | col everywhere"),
         ("canonical chains", lambda fa: chains.obligations(fa, ["cpc"]), 11, "typed update overloads follow the cross-language canonicalisation contract"),
         ("couplings", lambda fa: cowrite.obligations(fa, ['u32_table']), 2, "fields that every mutator updates together (counters, extremes, cached values) are still updated together"),
+        ("emptiness predicate support", lambda fa: predicates.obligations(fa, ['cpc_sketch_alloc']), 1, "the emptiness predicate still consults every field it depended on in the reviewed tree (spec/predicates.json)"),
         ("tautologies", lambda fa: generic_lints.tautologies(fa, ('cpc/',)), 2, "no comparison / assignment / min-max with two identical operands, no if-else with identical arms"),
         ("duplicate operands", lambda fa: generic_lints.duplicate_conjuncts(fa, ('cpc/',)), 2, "no logical chain tests the same operand twice (copy-paste of the wrong peer)"),
         ("forwarding peers", lambda fa: generic_lints.forwarding_peers(fa, ('cpc/',)), 7, "one-statement typed overloads forward to an overload of their own name, never to the head of a sibling family (wrong peer)"),
